@@ -457,7 +457,9 @@ def validate(pid, executed, work, tag, seed):
                             "matched_in_run": f["matched_in_run"], "rejected_event": f["event"],
                             "events_before": f["run"][max(0, f["matched_in_run"] - 14):f["matched_in_run"]],
                             "crashed": info["crashed"], "blocked": info["blocked"], "stderr": info.get("stderr", ""),
-                            "tlc": f["tlc_tail"]})
+                            "tlc": f["tlc_tail"],
+                            # the complete recorded execution: ./check <id> --replay <this file> validates it again
+                            "trace": f["run"]})
         C.report_violation(pid, rp)
         viol += 1
     return accepted, failures, viol
@@ -573,8 +575,18 @@ def replay(pid, path):
     if not s:
         print("replay file has no scenario")
         return 2
-    bdir = C.ensure_harness("asan", ["drv_threads", "drv_lifecycle"])
     work = C.BUILD / "work" / pid
+    if payload.get("trace"):
+        # the recorded execution itself (schedules differ from run to run, the record does not)
+        acc, fails = C.validate_runs("Trace_Threads", "Trace_Threads.cfg", [payload["trace"]], work, "replay", mode="max",
+                                     chunk=25, timeout=1800)
+        if fails:
+            print("the recorded execution is rejected at event %d: %s" % (fails[0]["matched_in_run"], fails[0]["event"]))
+            C.report_violation(pid, path)
+            return 1
+        print("the recorded execution is accepted by the current specification")
+        return 0
+    bdir = C.ensure_harness("asan", ["drv_threads", "drv_lifecycle"])
     if str(s.get("kind", "")).startswith("life-child:"):
         path_name = s["kind"].split(":", 1)[1]
         raw, rc, err, wall = life_child(bdir, path_name, s["producers"], s["msgs"], 500, 30, 1, s.get("late", False))
